@@ -18,6 +18,9 @@ def run(rep):
     rep.guard(c10.v5, rep, w, 'U4')      # index arithmetic on program-chosen integers cannot overflow (-inf / isize::MIN boundary)
     rep.guard(u5, rep, w)
     rep.guard(u6, rep, w)
+    import c19
+    rep.guard(c19.d1, rep, w)     # number -> string conversion is the model's (shortest round-trip) text
+    rep.guard(c19.d2, rep, w)     # string -> number conversion is correctly rounded (str::parse::<f64> on the whole string)
     import c01, c01_flow
     rep.guard(c01_flow.r5b, rep, w, c01.may_gc(w))     # slicing copies operands off the stack: they stay rooted until the result exists
 
